@@ -139,9 +139,19 @@ impl RevocationBitmap {
 
   /// Deserializes [`RevocationBitmap`] from a slice of bytes.
   fn deserialize_slice(data: &[u8]) -> Result<Self, RevocationError> {
-    RoaringBitmap::deserialize_from(data)
-      .map_err(RevocationError::BitmapDecodingError)
-      .map(Self)
+    let bitmap = RoaringBitmap::deserialize_from(data).map_err(RevocationError::BitmapDecodingError)?;
+    // The run-container variant of the format (written by other implementations, never by this crate) lets
+    // `deserialize_from` produce an empty container (a run container without runs), which `serialize_into`
+    // cannot write back. Rebuild such bitmaps from their elements.
+    const SERIAL_COOKIE_WITH_RUN_CONTAINERS: u16 = 12347;
+    let has_run_containers = data.len() >= 2 && u16::from_le_bytes([data[0], data[1]]) == SERIAL_COOKIE_WITH_RUN_CONTAINERS;
+    if has_run_containers {
+      RoaringBitmap::from_sorted_iter(bitmap.iter())
+        .map(Self)
+        .map_err(|err| RevocationError::BitmapDecodingError(std::io::Error::new(std::io::ErrorKind::InvalidData, err)))
+    } else {
+      Ok(Self(bitmap))
+    }
   }
 
   /// Serializes a [`RevocationBitmap`] as a vector of bytes.
